@@ -426,6 +426,12 @@ def execute_service(ctx: Ctx, fn: Func, cmd: Cmd, sc: Schema) -> None:
     for n in own_nodes(fn.node):
         if isinstance(n, ast.If) and len(n.body) == 1 and len(n.orelse) == 1 and isinstance(n.body[0], ast.Assign) and isinstance(n.orelse[0], ast.Assign) and norm(n.body[0].targets[0]) == norm(n.orelse[0].targets[0]):
             ifs.append(_Choice(n.test, n.body[0].value, n.orelse[0].value))
+    for n in own_nodes(fn.node):
+        # ... or (consumer sunk into the branches) two setattr calls with the constant field names
+        if isinstance(n, ast.If) and len(n.body) == 1 and len(n.orelse) == 1 and all(isinstance(x, ast.Expr) and isinstance(x.value, ast.Call) and norm(x.value.func) == "setattr" and len(x.value.args) == 3 for x in (n.body[0], n.orelse[0])):
+            a, b = n.body[0].value, n.orelse[0].value
+            if norm(a.args[0]) == norm(b.args[0]) and norm(a.args[2]) == norm(b.args[2]):
+                ifs.append(_Choice(n.test, a.args[1], b.args[1]))
     okv = False
     detail = "no version-dependent choice of the integer field"
     for e in ifs:
